@@ -322,7 +322,7 @@ pub fn run_prop(e: &Engine) {
     e.campaign(
         "fault-points",
         rule,
-        e.tier.pick(160, 6000),
+        e.tier.pick(300, 8000),
         || strategy(1),
         render,
         check_scenario,
